@@ -99,6 +99,9 @@ def main(argv=None):
     for k in stale:
         print('  note: known finding no longer reproduced (fixed?): %s' % k)
     exit_code = 0
+    import glob as _glob
+    for old in _glob.glob(os.path.join(EVID, 'replay', '%s-*.json' % prop)):
+        os.remove(old)
     for n, v in enumerate(new):
         rp = os.path.join(EVID, 'replay', '%s-%d.json' % (prop, n))
         with open(rp, 'w') as fh:
